@@ -347,6 +347,60 @@ def run(F, rep, tier):
             rep.error('R11.4', 'Range::empty match not found')
     else:
         rep.error('R11.4', 'Range::empty missing')
+    # ---------------- R11.6
+    rep.rule('R11.6', 'lengths are never combined with Ord/Iterator min/max on Option<usize> (None, i.e. infinite, sorts below every Some: '
+             'the infinite input would win a min); a next() result inside a loop of a default Stream method is inspected, not discarded '
+             '(so counted skipping stops at exhaustion); Combinations compares its cursor length with the base before indexing, in '
+             'next and in peek')
+    n6 = 0
+    for imp in impls:
+        lf = F.impl_fn(imp, 'len')
+        if not lf or not F.has_fn(lf):
+            continue
+        for bx in [F.body(lf)] + [F.body(c_) for c_ in F.closures_of(lf)]:
+            for c in bx.calls:
+                last = c.target.rsplit('::', 1)[-1]
+                dty = bx.locals[c.dest[0]] if c.dest and c.dest[0] < len(bx.locals) else ''
+                if last in ('min', 'max', 'min_by', 'max_by', 'min_by_key', 'max_by_key') and ('Option<usize>' in (c.da + str(c.callee.get('g'))) or 'Option<std::option::Option<usize>>' in dty or dty == 'std::option::Option<usize>' and 'Option' in str(c.callee.get('g'))):
+                    rep.viol('R11.6', '%s|option-minmax' % lf, '%s combines Option<usize> lengths with %s: None (infinite) compares below Some, so a zip of a finite and an infinite stream would report an infinite length' % (lf, last), c.loc())
+                n6 += 1
+    rep.ok('R11.6', 'len overrides scanned', '%d call(s) in len overrides, none is a min/max over Option<usize>' % n6)
+    trd = F.traits.get('core::Stream')
+    for n, p_, has_default in (trd['items'] if trd else []):
+        if not has_default or not F.has_fn(p_):
+            continue
+        b = F.body(p_)
+        for c in b.calls:
+            if c.target.rsplit('::', 1)[-1] != 'next' or not b.on_cycle(c.bb):
+                continue
+            d = c.dest[0]
+            used = False
+            for i in b.reach:
+                for s_ in b.stmts(i):
+                    if s_[0] == 'a' and ((s_[2][0] == 'discr' and s_[2][1][0] == d) or (s_[2][0] in ('use', 'ref') and any(isinstance(x, list) and x and x[0] in ('c', 'm') and x[1][0] == d for x in s_[2][1:2])) or (s_[2][0] == 'ref' and s_[2][2][0] == d)):
+                        used = True
+                t_ = b.term(i)
+                if t_[0] == 'call' and any(a[0] in ('c', 'm') and a[1][0] == d for a in t_[2]):
+                    used = True
+            if used:
+                rep.ok('R11.6', 'Stream::%s: next() in a loop' % n, 'its result is inspected')
+            else:
+                rep.viol('R11.6', 'core::Stream::%s|next-result-discarded' % n, 'a loop in the default %s calls next() and throws the result away: skipping a huge count keeps looping after the stream is exhausted' % n, c.loc())
+    for fn in ('<streams::Combinations as std::iter::Iterator>::next', '<streams::Combinations as core::Stream>::peek'):
+        if not F.has_fn(fn):
+            rep.error('R11.6', 'missing ' + fn)
+            continue
+        b = F.body(fn)
+        idx = []
+        for bx in [b] + [F.body(c_) for c_ in F.closures_of(fn)]:
+            idx += [(bx, c) for c in bx.calls if c.target.rsplit('::', 1)[-1] == 'index' and 'core::Obj' in str(c.callee.get('g'))]
+        lens = [c for c in b.calls if c.target.endswith('::len')]
+        cmpb = [i for i in b.reach for s_ in b.stmts(i) if s_[0] == 'a' and s_[2][0] == 'bin' and s_[2][1] in ('Gt', 'Lt', 'Ge', 'Le') and
+                all(any(o[0] == 'call' and o[1].endswith('::len') for o in origins(b, x)) for x in s_[2][2:4])]
+        if idx and cmpb:
+            rep.ok('R11.6', fn, 'cursor length compared with the base length before the base is indexed')
+        elif idx:
+            rep.viol('R11.6', fn + '|unguarded-base-index', '%s indexes the base by cursor values without comparing the cursor length with the base length: choosing more elements than available panics' % fn, idx[0][1].loc())
     rep.undecided += ['closed-form len of Permutations / Subsequences / CartesianPower vs their next()', 'values produced by lazy adaptors',
                       'index/slice overrides of individual streams as functions of values']
     return META
